@@ -25,7 +25,7 @@ def target(name):
 def generate(name):
     """(re)write coq/Gen/<name>.v iff its text changed. Raises TranslateError (fail-closed)."""
     if name not in TARGETS:
-        raise TranslateError("unknown target " + name)
+        raise TranslateError("unknown target " + name + ("" if not globals().get("EXT_ERRORS") else " (extension files that failed to load: %s)" % EXT_ERRORS))
     text = TARGETS[name]()
     os.makedirs(GEN, exist_ok=True)
     p = os.path.join(GEN, name + ".v")
@@ -1554,10 +1554,23 @@ def gen_dispatch():
     return "\n".join(out)
 
 
+# ==========================================================================================
+# extension targets: every tools/translate_ext_*.py is executed in this module's namespace (so it uses `target`, `_gexpr`,
+# `_gstmts`, `_gen_fun_table`, ... directly and registers its own @target functions). One file per family of targets.
+# ==========================================================================================
+import glob as _glob
+EXT_ERRORS = {}      # an extension file that does not load takes only its own targets down (they are then unknown: fail-closed)
+for _ext in sorted(_glob.glob(os.path.join(os.path.dirname(os.path.abspath(__file__)), "translate_ext_*.py"))):
+    try:
+        exec(compile(open(_ext).read(), _ext, "exec"), globals())
+    except Exception as _e:        # noqa: a syntax error in one family must not stop the checks of the others
+        EXT_ERRORS[os.path.basename(_ext)] = "%s: %s" % (type(_e).__name__, _e)
+
+
 # MAIN-BLOCK (keep last)
 if __name__ == "__main__":
     import sys
-    es = generate_all()
+    es = generate_all() + ["%s: %s" % kv for kv in EXT_ERRORS.items()]
     for e in es:
         print("TranslateError:", e)
     sys.exit(1 if es else 0)
